@@ -29,6 +29,10 @@ func c15Less(mode int, x, y int) bool {
 		return ((x-y)%3+3)%3 == 1
 	case 4:
 		return true
+	case 6:
+		return c15Nested(0, x, y) // a less that itself calls SliceBy (2-element inner sort)
+	case 7:
+		return c15Nested(12, x, y) // the same with a 14-element inner sort (doPivot path)
 	default:
 		return x <= y
 	}
@@ -62,6 +66,7 @@ func init() {
 			}
 			sortx.SliceBy(keys, vals, func(i, j int) bool {
 				count++
+				c15Hook()
 				return c15Less(mode, atoi(keys[i]), atoi(keys[j]))
 			})
 			for _, k := range keys {
@@ -81,6 +86,7 @@ func init() {
 			}
 			sortx.SliceBy(keys, vals, func(i, j int) bool {
 				count++
+				c15Hook()
 				return c15Less(mode, int(keys[i]), int(keys[j]))
 			})
 			for _, k := range keys {
@@ -97,6 +103,7 @@ func init() {
 			vals := append([]int(nil), vs...)
 			sortx.SliceBy(keys, vals, func(i, j int) bool {
 				count++
+				c15Hook()
 				return c15Less(mode, keys[i], keys[j])
 			})
 			outK, outV = keys, vals
